@@ -299,6 +299,13 @@ pub fn run_case(cmds: &[Cmd], out: &mut Out, tag: &str) {
                 } else {
                     None
                 };
+                if p.n >= 1 && p.total < 0.0 && p.total.is_finite() && p.start.is_finite() && p.dur.is_finite() && p.vel.is_finite() && !p.td.is_nan() {
+                    // finite parameters, span count >= 1, but a negative length
+                    if let Some(Err(msg)) = &reference {
+                        out.oracle_checks += 1;
+                        out.fail(NEGLEN, &format!("{p:?}"), &format!("SliderEventsIter::new panics: {msg}"));
+                    }
+                }
                 if in_domain(&p) {
                     match &reference {
                         Some(Ok(evs)) => check_stream(&p, evs, out, &format!("{p:?}")),
@@ -536,6 +543,9 @@ fn rand_history(r: &mut Rng, extreme: bool) -> Vec<Cmd> {
     }
     cmds
 }
+
+/// known finding: `new` panics (f64::clamp precondition) on a negative length
+pub const NEGLEN: &str = "D-C20-NEGLEN";
 
 pub const RULE: &str = "histories New/Next/Drain/Junk over ONE shared Vec<SliderEvent>: exhaustive grid span counts 1..6 x tick/length ratios {0,1/7,1/4,1/3,1/2,1,2,inf} x velocities x durations (each drained, each also abandoned half-way before the next slider), random playable sliders, extremes (zero/negative/huge/NaN/inf/subnormal parameters inside the loop budget), and a separate malformed stream (span count 0, negative, i32::MIN/MAX; only finitely many events pulled); non-trivial = at least one tick and at least 4 events pulled; distinct = distinct case lines";
 
